@@ -49,7 +49,10 @@ RULE = ("cases: (1) bam_region_depths on 1..3 single-sample BAMs x region x conf
         "datasets); (2) write_vcf_block on prescribed depth tensors x threshold grid (exact ties at the thresholds, zero-depth "
         "samples, non-ACGT reference bases); (3) mchap find-snvs stdout. Non-trivial: depths — a read inside the region is "
         "governed by a configured filter or an engine default and an indel/clip lies in the region; sites — >= 2 samples, an "
-        "allele exactly at a threshold or a masked reference. Distinct by canonical request line.")
+        "allele exactly at a threshold or a masked reference. Distinct by canonical request line. WP3: depth streams multiflag / "
+        "noqual / edges, pileups around 8000 reads, fixed differences in the tensors, and an end-to-end CLI stream "
+        "(harness/wp3_c19.py: read groups, --read-group-field ID, --bam list files, numeric contigs, BED shapes, contig ends, "
+        "pairwise distinct thresholds with --min-ind in 1..n) with the property evaluated on the ReadSpecs.")
 
 BASES = "ACGT"
 CAUSES = {
@@ -378,26 +381,29 @@ def compare_site(impl, model, tie_ok):
     return ""
 
 
-def gen_depth_tensor(r, n_samples, n_pos, th, zero_samples, ref_idx=None):
+def gen_depth_tensor(r, n_samples, n_pos, th, zero_samples, ref_idx=None, r2=None):
     """depths with alleles exactly at, just below and just above the thresholds; with `ref_idx` (reference allele index per
     position) some sites are fixed differences (every read carries one non-reference base) or sites where the reference has
     a read or two and exactly one other allele has the rest"""
     maf, mad, imaf, imad, minind = th
     out = []
+    special = {}
     for p_ in range(n_pos):
-        site = []
-        if ref_idx is not None and ref_idx[p_] >= 0 and r.random() < 0.12:
-            b_ = r.choice([a for a in range(4) if a != ref_idx[p_]])
-            few = r.random() < 0.5
+        # drawn from a generator of its own (`r2`): the sites drawn from `r` are the same with and without this feature
+        if ref_idx is not None and r2 is not None and ref_idx[p_] >= 0 and r2.random() < 0.12:
+            b_ = r2.choice([a for a in range(4) if a != ref_idx[p_]])
+            few = r2.random() < 0.5
+            site = []
             for s in range(n_samples):
                 d = [0, 0, 0, 0]
-                if not (zero_samples and r.random() < 0.2):
-                    d[b_] = r.choice([4, 8, 10, 16, 20, 40])
+                if not (zero_samples and r2.random() < 0.2):
+                    d[b_] = r2.choice([4, 8, 10, 16, 20, 40])
                     if few:
-                        d[ref_idx[p_]] = r.choice([0, 1, 1, 2])
+                        d[ref_idx[p_]] = r2.choice([0, 1, 1, 2])
                 site.append(d)
-            out.append(site)
-            continue
+            special[p_] = site
+    for p_ in range(n_pos):
+        site = []
         kind = r.random()
         for s in range(n_samples):
             if zero_samples and r.random() < 0.3:
@@ -423,7 +429,7 @@ def gen_depth_tensor(r, n_samples, n_pos, th, zero_samples, ref_idx=None):
                     d[a] = k
                     rem -= k
             site.append(d)
-        out.append(site)
+        out.append(special.get(p_, site))
     return out
 
 
@@ -437,7 +443,8 @@ def run(tier, replay=None):
     chk = C.Check(PROP, tier, MODULE, THEOREMS, RULE, assumptions=[
         "the pileup engine (htslib bam_plp + pysam's PileupColumn.get_query_sequences) is modelled from its documented defaults "
         "and source (flag filter 0x704, min_base_quality 13, ignore_orphans, overlap quality tweak) and tied to the real engine only by "
-        "the correspondence; max_depth = 8000 is never reached; at most two engine-passing alignments share a read name",
+        "the correspondence; the model has no depth cap (pileups deeper than 8000 reads are compared with the property oracle only, "
+        "stream maxdepth); at most two engine-passing alignments share a read name",
         "thresholds are the decimal values typed on the command line (exact in the model); float comparisons of a mean (over the samples with reads) of >= 2 "
         "sample frequencies that is exactly at --maf, and ALT order among exactly tied means with >= 2 samples, are compared as sets "
         "(Appendix A) and counted as tie-skipped",
@@ -462,6 +469,10 @@ def run(tier, replay=None):
         streams = ["clean", "unmapped", "mapq", "dup", "qcfail", "supp", "secondary", "baseq", "orphans", "overlap",
                    "multiflag", "noqual", "edges"]
         for stream in streams:
+            # the WP3 streams draw from generators of their own: the cases of the older streams stay what they were
+            r_old = r
+            if stream in ("multiflag", "noqual", "edges"):
+                r = C.rng(PROP + ":" + stream)
             for i in range(per_stream):
                 contigs, start, stop, bams = depth_case(r, stream)
                 d = os.path.join(work, "depth")
@@ -531,6 +542,7 @@ def run(tier, replay=None):
                                              "depths differ from the configured-filter pileup in a way none of the known causes explains", info)
                         break
                 ctx.flush()
+            r = r_old
 
         # mixed synthetic datasets: correspondence only (several causes at once)
         n_mixed = {"warm": 1, "quick": 10, "thorough": 80}[tier]
@@ -574,6 +586,7 @@ def run(tier, replay=None):
         ref_contig = "".join(r.choice("ACGTACGTACGTNacgtRY") for _ in range(400))
         fasta = S.write_fasta(os.path.join(work, "thr.fa"), {"t1": ref_contig})
         real_depths = FS.bam_region_depths
+        r_fixed = C.rng(PROP + ":fixed-differences")
         try:
             for i in range(n_thresh):
                 boundary = r.random() < 0.12
@@ -592,7 +605,7 @@ def run(tier, replay=None):
                 stop = min(400, start + n_pos)
                 n_pos = stop - start
                 tensor = gen_depth_tensor(r, n_samples, n_pos, th, zero_samples,
-                                          [BASES.find(ref_contig[start + p].upper()) for p in range(n_pos)])
+                                          [BASES.find(ref_contig[start + p].upper()) for p in range(n_pos)], r_fixed)
                 arr = np.array(tensor, dtype=np.int64).reshape(n_pos, n_samples, 4)
                 FS.bam_region_depths = lambda *a, _arr=arr, **k: _arr.copy()
                 buf = io.StringIO()
